@@ -62,17 +62,20 @@ var c09OpsList = []c09Op{
 type c09OTy struct {
 	code, ddp, model string
 	generic, ref     bool
+	list             bool
 }
 
 var c09OTys = []c09OTy{
-	{"K", "Kom", "Kom", false, false},
-	{"Z", "Zahl", "Zahl", false, false},
-	{"X", "Text", "Text", false, false},
-	{"KR", "Kom Referenz", "Kom", false, true},
-	{"ZR", "Zahlen Referenz", "Zahl", false, true},
-	{"XR", "Text Referenz", "Text", false, true},
-	{"T", "T", "T", true, false},
-	{"TR", "T Referenz", "T", true, true},
+	{"K", "Kom", "Kom", false, false, false},
+	{"Z", "Zahl", "Zahl", false, false, false},
+	{"X", "Text", "Text", false, false, false},
+	{"KR", "Kom Referenz", "Kom", false, true, false},
+	{"ZR", "Zahlen Referenz", "Zahl", false, true, false},
+	{"XR", "Text Referenz", "Text", false, true, false},
+	{"T", "T", "T", true, false, false},
+	{"TR", "T Referenz", "T", true, true, false},
+	{"KL", "Kom Liste", "Kom", false, false, true},
+	{"TL", "T Liste", "T", true, false, true},
 }
 
 type c09Operand struct {
@@ -89,6 +92,8 @@ var c09Operands = []c09Operand{
 	{"\"s\"", "\"s\"", am.Operand{Text: "\"s\"", Type: "Text"}},
 	// a numeric type that no overload names: convertible to Zahl, not equal to it
 	{"2,5", "2,5", am.Operand{Text: "2,5", Type: "Kommazahl"}},
+	// a list of the Kombination: a user-defined type behind a list (generic `T Liste` overloads apply)
+	{"kl", "kl", am.Operand{Text: "kl", Type: "Kom Liste", Assignable: true, UserType: true}},
 }
 
 // c09OpCase: one operator + overload set + which overloads live in the imported module.
@@ -125,7 +130,7 @@ func (oc c09OpCase) model() []*am.Overload {
 		o := &am.Overload{Name: fmt.Sprintf("o%d", i+1)}
 		for k, t := range sig {
 			ty := c09OTys[t]
-			o.Params = append(o.Params, am.Param{Name: []string{"a", "b"}[k], Type: ty.model, Generic: ty.generic, Ref: ty.ref})
+			o.Params = append(o.Params, am.Param{Name: []string{"a", "b"}[k], Type: ty.model, Generic: ty.generic, Ref: ty.ref, List: ty.list})
 		}
 		out = append(out, o)
 	}
@@ -164,7 +169,7 @@ func (oc c09OpCase) text() (main, mod string) {
 	} else {
 		sb.WriteString(c09KomDecl)
 	}
-	sb.WriteString("Der Kom k ist kneu.\nDie Zahl x ist 5.\nDer Text t ist \"tt\".\n")
+	sb.WriteString("Der Kom k ist kneu.\nDie Zahl x ist 5.\nDer Text t ist \"tt\".\nDie Kom Liste kl ist eine leere Kom Liste.\n")
 	for i := range oc.Sigs {
 		if oc.Imp&(1<<i) != 0 {
 			mb.WriteString(decl(i))
@@ -364,6 +369,23 @@ func c09RunOpCase(oc c09OpCase, dir string) (apps [][]int, js []c09OpJudgement, 
 	return
 }
 
+// c09GenericAlike: the two signatures differ, and every position where they differ holds a generic
+// parameter on both sides with the same Referenz-ness (T against T Liste).
+func c09GenericAlike(a, b []int) bool {
+	diff := false
+	for k := range a {
+		if a[k] == b[k] {
+			continue
+		}
+		x, y := c09OTys[a[k]], c09OTys[b[k]]
+		if !(x.generic && y.generic && x.ref == y.ref) {
+			return false
+		}
+		diff = true
+	}
+	return diff
+}
+
 func c09OpSigs(arity int) [][]int {
 	var out [][]int
 	n := len(c09OTys)
@@ -401,6 +423,12 @@ func c09Ops(r *c09Run, tier string) {
 		}
 		for i := 0; i < len(sigs); i++ {
 			for j := i + 1; j < len(sigs); j++ {
+				if c09GenericAlike(sigs[i], sigs[j]) {
+					// the implementation answers "already overloaded for these parameter types" when two overloads
+					// differ only in T versus T Liste; the property does not say whether they are the same: excluded
+					r.c.Add("excluded_unspecified", 1)
+					continue
+				}
 				cases = append(cases, c09OpCase{Op: oi, Sigs: [][]int{sigs[i], sigs[j]}})
 				// declaration order reversed
 				if op.arity == 1 || oi < 8 {
